@@ -1,8 +1,8 @@
-from . import streams_codec
+from . import streams_codec, cli
 
 ID = 'C08'
-PROPS_MODULE = 'Refine.Props.C08'
-STREAMS = [streams_codec.MESHB_WRITE, streams_codec.MESHB_READ]
+PROPS_MODULE = ['Refine.Props.C08', 'Refine.Props.C08Endian']
+STREAMS = [streams_codec.MESHB_WRITE, streams_codec.MESHB_READ, cli.CONVERT, cli.CONVERT_MPI]
 EXPLANATION = (
     'Proved in Lean (Refine/Props/C08.lean): decodeMeshb (encodeMeshb v m) = ok m for every WellFormed mesh and '
     'v in {2,3,4} (all 16 cell groups, vertex coordinates as bit patterns, ids, geometry records with gref as a '
@@ -12,11 +12,18 @@ EXPLANATION = (
     'distinct and < 156.  Tie: C writer bytes == encodeMeshb bytes (stream meshb_write), C reader dump == '
     'decodeMeshb dump on files from an independent libMeshb writer and on the C writer\'s own output (meshb_read).  '
     'Oracle: checks/meshio_ref.py, written from the libMeshb layout, parses what the C wrote / predicts what the C '
-    'must read.')
+    'must read.  BYTE ORDER (Refine/Props/C08Endian.lean): the SWAP_INT / SWAP_LONG / SWAP_DBL macros, regenerated '
+    'from ref_endian.h on every run, are the full byte reversal of their width, so a swapped little-endian value is '
+    'its big-endian encoding for EVERY value (ids >= 2^24 included) and reading inverts writing.  END-TO-END '
+    '(cli_convert, cli_convert_mpi; no model side): `ref translate` / `refmpi translate` at np = 0,2,3 between '
+    'meshb and the six binary UGRID flavours on tet boxes and a prism slab with triangle + quad boundary and '
+    'large ids; every output is parsed by the independent checks/pyio.py reader and must equal the input mesh '
+    '(coordinates bitwise, cells with orientation and tags).')
 ASSUMPTIONS = [
     'serial reader/writer only (ref_import_meshb / ref_export_meshb); the parallel pair ref_part/ref_gather is tied '
     'only through the translated pyramid shuffles',
-    'binary ugrid, su2, msh, fgrid formats are not modelled in this work package',
+    'binary ugrid bodies are not modelled in Lean (only their byte order is); they are covered end-to-end by the '
+    'cli_convert streams against the independent parser; su2, msh, fgrid, ascii ugrid are not covered',
     'ref_grid_inward_boundary_orientation (run by ref_import_by_extension after the reader) is outside the model; '
     'the harness calls the static ref_import_meshb through white-box inclusion of ref_import.c',
     'the exporter\'s REF_INVALID branch for a version-2 file above 2 GiB is not modelled: WellFormed bounds the size',
